@@ -179,7 +179,7 @@ def aposWb : Workbook :=
     sheets := [{ name := "It's".toList, cells := [⟨⟨1, 1⟩, none, .n (.int 8)⟩] }],
     names := [⟨"ap".toList, false, .ref ⟨"It's".toList, true, true, ⟨1, 1⟩, true, none⟩⟩] }
 
-/-- D1102: a sheet name containing `!`. -/
+/-- regression workbook for D1102 (fixed): a sheet name containing `!`. -/
 def bangWb : Workbook :=
   { sst := [], sheets := [{ name := "A!B".toList, cells := [⟨⟨1, 1⟩, none, .n (.int 8)⟩] }], names := [] }
 
